@@ -302,7 +302,7 @@ def history(cfg, case, out):
         # ---------- phase: a victim in the middle of its handshake (the server holds a half-open connection WITH a session key for it)
         #            while well-formed hellos arrive from more than a thousand other addresses: nothing those addresses send may
         #            take the victim's connection away before its own timeout
-        if heavy:
+        if heavy and case % 4 == 0:
             w.phase = "half-open-under-flood"
             w.net.heal(0.002)
             hv = w.add_client()
